@@ -374,10 +374,10 @@ int bufr_load_wmo_tables( BUFR_Tables *tables )
       {
       if (bufr_is_verbose()||bufr_is_debug())
          {
-         sprintf( errmsg, _("Info: WMO_BUFR_TABLES defined as %s\n"), env );
+         snprintf( errmsg, sizeof(errmsg), _("Info: WMO_BUFR_TABLES defined as %s\n"), env );
          bufr_print_debug( errmsg );
 	 }
-      sprintf( path, "%s", env );
+      snprintf( path, sizeof(path), "%s", env );
       str = strrchr( path, '/' );
       if (str == NULL)
          str = path;
@@ -409,7 +409,7 @@ int bufr_load_wmo_tables( BUFR_Tables *tables )
        * but is there any other way?
        */
          rtrn[0] = '\0';
-	 sprintf( filename, "%s/.git", env );
+	 snprintf( filename, sizeof(filename), "%s/.git", env );
          cgitrepo = ((stat(filename,&buf)==0)&&(S_ISDIR( buf.st_mode )));
          if (cgitrepo&&(stat(env,&buf)==0)&&(S_ISDIR( buf.st_mode )))
 	    {
@@ -438,7 +438,7 @@ int bufr_load_wmo_tables( BUFR_Tables *tables )
 	    }
          else
             {
-            sprintf( errmsg, _("Error: defined WMO_BUFR_TABLES is not valid %s\n"), env );
+            snprintf( errmsg, sizeof(errmsg), _("Error: defined WMO_BUFR_TABLES is not valid %s\n"), env );
             bufr_print_debug( errmsg );
 	    return -1;
 	    }
@@ -462,11 +462,11 @@ int bufr_load_wmo_tables( BUFR_Tables *tables )
       return -1;
       }
 
-   sprintf( filename, "%s/txt/BUFRCREX_TableB_en.txt", path );
+   snprintf( filename, sizeof(filename), "%s/txt/BUFRCREX_TableB_en.txt", path );
 
    rtrnB = bufr_load_csv_tableB( tables, filename );
 
-   sprintf( filename, "%s/txt/BUFR_TableD_en.txt", path );
+   snprintf( filename, sizeof(filename), "%s/txt/BUFR_TableD_en.txt", path );
    rtrnD = bufr_load_csv_tableD( tables, filename );
 
    return ( (rtrnD >= 0) && (rtrnB >= 0 ));
